@@ -6,7 +6,10 @@ an unbounded type structure).  The deciding part is therefore the BOUNDED stand-
 'exploration', never counted as proved): encode/decode round trips on the real code over enumerated signatures x
 generated conforming values in every accepted input form x 8 offsets x both byte orders.
 
-Deductive support (the contracts of contracts/marshal_contracts.py, proved on every run, shared with C02): both directions
+Deductive part proved on every run: (a) round-trip LEMMAS for the basic types - for every value, byte order, offset and
+surrounding bytes, what the encoder's contract says it produces decodes, by the decoder's contract, to the same value with
+consumed == produced (the inverse laws of struct and the codecs are the trusted part); (b) the contracts of
+contracts/marshal_contracts.py, shared with C02: both directions
 of the real codec equal the specification recursion (ENC*/DOFF*/DVALS*), the reported counts equal byte lengths, the byte
 order and the aligned offset reach every nested call.  A change that makes encoder and decoder disagree has to break one
 of the two against the specification, so it fails a named obligation here as well.
@@ -45,6 +48,45 @@ def build(tier='quick'):
               notes=['level exploration: the deductive obligations support, the bounded round trip decides'],
               explanation='bounded round trips on the real code decide; both codec directions are additionally proved equal to the specification recursion (shared with C02)',
               design_ref='DESIGN.md 4/C01-C02')
-    sp.lemmas = binding
+    sp.lemmas = binding + leaf_roundtrip_lemmas()
     sp.level = 'exploration'
     return sp
+
+
+def leaf_roundtrip_lemmas():
+    """Round trip of the basic types as lemmas over the two contracts of each codec pair (what the encoder's postcondition says
+    it produces, fed to what the decoder's postcondition says it returns), for every value in range, byte order, offset and
+    surrounding bytes.  The inverse laws of struct / the codecs themselves are the trusted part:
+        unpack(c, le, pack(c, le, v)) == v  (v in the range of c)      dec_utf8(enc_utf8(s)) == s      dec_ascii(enc_ascii(s)) == s"""
+    import z3
+    from pyvc.values import StringSort, IntSort, BoolSort
+    from pyvc.models import packed, unpacked, ufun, int_range
+    pre, post, s = z3.String('pre'), z3.String('post'), z3.String('s')
+    v, le = z3.Int('v'), z3.Bool('le')
+    out = []
+    for code, (ch, width) in list(MC.FIXED.items()) + [('b', ('I', 4))]:
+        lo, hi = int_range(ch)
+        img = packed(ch, le, v)
+        data = z3.Concat(pre, img, post)
+        off = z3.Length(pre)
+        law = z3.Implies(z3.And(v >= lo, v <= hi), unpacked(ch, le, img) == v)                   # trusted: struct round trip
+        fact = z3.Length(img) == width                                                               # trusted: struct size
+        decoded = unpacked(ch, le, z3.SubString(data, off, width))
+        goal = decoded == v if code != 'b' else (decoded != 0) == (v != 0)
+        dom = z3.And(v >= lo, v <= hi) if code != 'b' else z3.Or(v == 0, v == 1)
+        out.append(('round trip of type %s at any offset, either byte order' % code, z3.Implies(z3.And(law, fact, dom), goal)))
+    for code, lenfmt, enc in (('s', 'I', 'utf8'), ('g', 'B', 'ascii')):
+        u = ufun('enc_' + enc, StringSort, StringSort)(s)
+        n = z3.Length(u)
+        lo, hi = int_range(lenfmt)
+        w = 4 if lenfmt == 'I' else 1
+        hdr = packed(lenfmt, le, n)
+        data = z3.Concat(pre, hdr, u, z3.StringVal('\0'), post)
+        off = z3.Length(pre)
+        laws = z3.And(z3.Length(hdr) == w, z3.Implies(n <= hi, unpacked(lenfmt, le, hdr) == n),
+                      ufun('dec_' + enc, StringSort, StringSort)(u) == s)                          # trusted: struct + codec round trip
+        m = unpacked(lenfmt, le, z3.SubString(data, off, w))
+        body = z3.SubString(data, off + w, m)
+        goal = z3.And(ufun('dec_' + enc, StringSort, StringSort)(body) == s, w + m + 1 == w + n + 1)
+        out.append(('round trip of type %s: length prefix, text, NUL; consumed == produced' % code, z3.Implies(z3.And(laws, n <= hi), goal)))
+    return out
